@@ -971,6 +971,45 @@ func rulesC12(c *Ctx) {
 		}
 		// integer range constants on both sides
 		up, pe := c.Fn(pM, "", "unmarshalPrimitive"), c.Fn(pM, "", "primitiveEqual")
+		// the header is read as a number only when the body value is an integer: a string argument "007" or "1.0" is
+		// compared as the string it is (a numeric reading of the header regardless of the body's type rejects the client's
+		// own correct header and accepts "7.0" for the string "7")
+		{
+			peg := pe.Graph()
+			nNum := 0
+			for _, call := range pe.AllCalls(pe.Body, false) {
+				fn := pe.Callee(call)
+				if fn == nil || fn.Pkg() == nil || fn.Pkg().Path() != "strconv" || !strings.HasPrefix(fn.Name(), "Parse") {
+					continue
+				}
+				nNum++
+				gs := peg.GuardsAt(peg.VertexOf(call))
+				okInt := hasAtom(gs, func(a Atom) bool {
+					if !a.Val {
+						return false
+					}
+					o := pe.ObjOf(a.E)
+					if o == nil {
+						return false
+					}
+					// the comma-ok of bodyVal.(int64)
+					for _, w := range Writes(pe.Body, false) {
+						as, isAs := w.Stmt.(*ast.AssignStmt)
+						if !isAs || len(as.Lhs) != 2 || len(as.Rhs) != 1 || pe.ObjOf(as.Lhs[1]) != o {
+							continue
+						}
+						if ta, isTA := ast.Unparen(as.Rhs[0]).(*ast.TypeAssertExpr); isTA && ta.Type != nil {
+							if b, isB := pe.TypeOf(ta.Type).(*types.Basic); isB && b.Kind() == types.Int64 {
+								return true
+							}
+						}
+					}
+					return false
+				})
+				c.Check(okInt, "primitiveEqual:numeric-reading-only-for-integer-bodies#"+itoa(nNum), pe, call, "the header is parsed as a number only under `bodyVal.(int64)` ok (guards: %s)", atomsString(gs))
+			}
+			c.Pin("numeric parses of the header in primitiveEqual", nNum, 1)
+		}
 		for _, k := range []string{"minSafeInteger", "maxSafeInteger"} {
 			o := c.Obj(pM, k)
 			c.Check(up.Mentions(up.Body, o) && pe.Mentions(pe.Body, o), "integer-range:"+k, up, nil, "%s bounds both the body-side decoding and the header-side comparison", k)
